@@ -384,6 +384,47 @@ func v0NewKey(r *Rng) v0Key {
 	}
 }
 
+// v0Sibling returns a different key with the same X coordinate: the negated key -P
+// (02X <-> 03X, a distinct key with its own private scalar) or the same point in the other
+// encoding (compressed <-> uncompressed). Duplicate-key tests compare whole byte strings.
+func v0Sibling(r *Rng, k v0Key) v0Key {
+	if r.Bool() {
+		var d btcec.ModNScalar
+		d.Set(&k.priv.Key)
+		d.Negate()
+		np := btcec.PrivKeyFromScalar(&d)
+		if len(k.pub) == 33 {
+			return v0Key{np, np.PubKey().SerializeCompressed()}
+		}
+		return v0Key{np, np.PubKey().SerializeUncompressed()}
+	}
+	if len(k.pub) == 33 {
+		return v0Key{k.priv, k.priv.PubKey().SerializeUncompressed()}
+	}
+	return v0Key{k.priv, k.priv.PubKey().SerializeCompressed()}
+}
+
+// v0GenKeys draws n keys; now and then two of them share their X coordinate.
+func v0GenKeys(r *Rng, n int) []v0Key {
+	var l []v0Key
+	for j := 0; j < n; j++ {
+		if j > 0 && r.Chance(20) {
+			l = append(l, v0Sibling(r, l[r.Intn(j)]))
+			continue
+		}
+		l = append(l, v0NewKey(r))
+	}
+	// the same sibling may have been drawn twice: keep byte strings distinct
+	seen := map[string]bool{}
+	for j := range l {
+		for seen[string(l[j].pub)] {
+			l[j] = v0NewKey(r)
+		}
+		seen[string(l[j].pub)] = true
+	}
+	return l
+}
+
 func (k v0Key) sign(r *Rng, ht byte) []byte {
 	return append(ecdsa.Sign(k.priv, r.Bytes(32)).Serialize(), ht)
 }
@@ -515,11 +556,9 @@ func v0GenAPI(r *Rng) *pset.Pset {
 		case 3, 4: // p2wsh / p2sh-p2wsh multisig
 			n := r.Pick(1, 2, 3)
 			m := 1 + r.Intn(n)
-			pl.keys = nil
+			pl.keys = v0GenKeys(r, n)
 			var pubs [][]byte
-			for j := 0; j < n; j++ {
-				k := v0NewKey(r)
-				pl.keys = append(pl.keys, k)
+			for _, k := range pl.keys {
 				pubs = append(pubs, k.pub)
 			}
 			pl.ws = v0Multisig(m, pubs)
@@ -539,11 +578,9 @@ func v0GenAPI(r *Rng) *pset.Pset {
 		case 6: // legacy p2sh multisig
 			n := r.Pick(1, 2, 3)
 			m := 1 + r.Intn(n)
-			pl.keys = nil
+			pl.keys = v0GenKeys(r, n)
 			var pubs [][]byte
-			for j := 0; j < n; j++ {
-				k := v0NewKey(r)
-				pl.keys = append(pl.keys, k)
+			for _, k := range pl.keys {
 				pubs = append(pubs, k.pub)
 			}
 			pl.redeem = v0Multisig(m, pubs)
@@ -621,9 +658,9 @@ func v0GenAPI(r *Rng) *pset.Pset {
 			}
 		}
 		nd := r.Pick(0, 0, 1, 2, 3)
-		for j := 0; j < nd; j++ {
-			fp, path, pub := v0GenDerivation(r, true)
-			u.AddInBip32Derivation(fp, path, pub, i)
+		for _, k := range v0GenKeys(r, nd) {
+			fp, path, _ := v0GenDerivation(r, true)
+			u.AddInBip32Derivation(fp, path, k.pub, i)
 		}
 		if r.Chance(80) {
 			order := r.Intn(2)
@@ -653,9 +690,9 @@ func v0GenAPI(r *Rng) *pset.Pset {
 			u.AddOutWitnessScript(r.Bytes(r.Pick(0, 35, 71)), i)
 		}
 		nd := r.Pick(0, 0, 1, 2)
-		for j := 0; j < nd; j++ {
-			fp, path, pub := v0GenDerivation(r, true)
-			u.AddOutBip32Derivation(fp, path, pub, i)
+		for _, k := range v0GenKeys(r, nd) {
+			fp, path, _ := v0GenDerivation(r, true)
+			u.AddOutBip32Derivation(fp, path, k.pub, i)
 		}
 	}
 	if r.Chance(15) {
@@ -695,8 +732,7 @@ func v0GenDirect(r *Rng) *pset.Pset {
 		}
 		return v0NonNil(r.Bytes(r.Pick(0, 1, 22, 34, 71, 0xfc, 0xfd, 300)))
 	}
-	genSig := func() *psbt.PartialSig {
-		k := v0NewKey(r)
+	genSig := func(k v0Key) *psbt.PartialSig {
 		s := &psbt.PartialSig{PubKey: k.pub, Signature: k.sign(r, byte(r.Pick(1, 1, 0x41, 0x83)))}
 		if wild && r.Chance(15) {
 			switch r.Intn(4) {
@@ -718,8 +754,10 @@ func v0GenDirect(r *Rng) *pset.Pset {
 			return nil
 		}
 		n := r.Pick(1, 1, 2, 3, 4)
+		keys := v0GenKeys(r, n)
 		for j := 0; j < n; j++ {
-			fp, path, pub := v0GenDerivation(r, true)
+			fp, path, _ := v0GenDerivation(r, true)
+			pub := keys[j].pub
 			if wild && r.Chance(10) {
 				pub = r.Bytes(r.Pick(0, 33, 65))
 			}
@@ -764,8 +802,8 @@ func v0GenDirect(r *Rng) *pset.Pset {
 		}
 		if r.Chance(60) {
 			n := r.Pick(1, 1, 2, 3, 5)
-			for j := 0; j < n; j++ {
-				in.PartialSigs = append(in.PartialSigs, genSig())
+			for _, k := range v0GenKeys(r, n) {
+				in.PartialSigs = append(in.PartialSigs, genSig(k))
 			}
 			if n >= 2 && r.Chance(8) {
 				in.PartialSigs[n-1].PubKey = in.PartialSigs[0].PubKey
